@@ -342,8 +342,17 @@ func (e *explorer) level(jobs []*job, keep bool) {
 func (s *Seed) successorRules(pre *State, static []*Rule) []*Rule {
 	var out []*Rule
 	seen := map[*Rule]bool{}
+	plain := quickTier && plainNaming(pre)
 	for _, rule := range static {
 		if rule.Class == "copyform" && !hasBuilderNamed(pre, rule.Sel.Name) {
+			continue
+		}
+		if plain && !rule.B && rule.Class == "form" && rule.Sel.Mode == "builder" {
+			// quick tier only: while every builder is still named after its
+			// object and no object has two builders, `by_builder: B.o` names
+			// the same option as `by_name: Obj.o` (explored); the by_builder
+			// forms are kept at depth 1 and in every state where builders
+			// were renamed, duplicated or composed.
 			continue
 		}
 		seen[rule] = true
@@ -358,6 +367,23 @@ func (s *Seed) successorRules(pre *State, static []*Rule) []*Rule {
 		}
 	}
 	return out
+}
+
+var quickTier bool
+
+// plainNaming: every builder is named after its object, lives in its
+// object's package, and no object has two builders.
+func plainNaming(st *State) bool {
+	seen := map[string]bool{}
+	for i := range st.Builders {
+		b := &st.Builders[i]
+		k := b.For.SelfRef.ReferredPkg + "." + b.For.SelfRef.ReferredType
+		if b.Name != b.For.Name || b.Package != b.For.SelfRef.ReferredPkg || seen[k] {
+			return false
+		}
+		seen[k] = true
+	}
+	return true
 }
 
 func hasBuilderNamed(st *State, name string) bool {
@@ -385,6 +411,7 @@ func stateKey(st *State) string {
 func main() {
 	r := vx.Start("C17")
 	r.PerKindSmallest = true
+	quickTier = !r.Thorough()
 	if pf := os.Getenv("VERIF_C17_PROF"); pf != "" {
 		f, _ := os.Create(pf)
 		pprof.StartCPUProfile(f)
@@ -397,7 +424,7 @@ func main() {
 	cleanup := func() { os.RemoveAll(dir) }
 	defer cleanup()
 
-	budget := 95 * time.Second
+	budget := 105 * time.Second
 	if r.Thorough() {
 		budget = 17 * time.Minute
 	}
